@@ -169,6 +169,28 @@ def gen(rng, tier):
         lines.append("ENDHIST")
         hists.append((hid, ds, w, m, 1 << 22, qs))
     lines.append("DROP hq")
+    # group-by lists that coincide once their names are glued together: (a, b) / ("a,b") / () / ("")
+    # on ONE open handle, in both orders (anything the index memoises per group-by list)
+    seps = [b",", b";", b" ", b"|", b"/", b"\x1f", b""]
+    rows = [{b"a": b"1", b"b": b"x"}, {b"a": b"1", b"b": b"y"}, {b"a": b"2", b"b": b"x"}, {b"a": b"2"}, {b"b": b"y"}, {b"ab": b"q", b"a": b"1"}]
+    for sp in seps[:-1]:
+        rows.append({b"a" + sp + b"b": b"glued", b"a": b"2", b"b": b"y"})
+    ds = dp.Dataset("hg", rows, "glued-group-by-names")
+    lines += ds.lines()
+    any_e = ("O", [dp.e_eq(b"a", b"1"), dp.e_eq(b"a", b"2"), dp.e_eq(b"b", b"y")])
+    gbs = [[b"a", b"b"]] + [[b"a" + sp + b"b"] for sp in seps] + [[], [b""], [b"a", b"b"], [b"b", b"a"], [b"a"], [b"a", b""], [b"", b"a"], [b"a", b"b"]]
+    for hn, (w, m, cap, order) in enumerate([("mem", "ondemand", -2, 1), ("big", "preload", 1 << 22, -1), ("mem", "preload", 0, 1)]):
+        sq = gbs[::order]
+        hid = "hg.t%d" % hn
+        lines.append("HIST %s hg %s %s %d %d" % (hid, w, m, cap, len(sq)))
+        qs = []
+        for j, gb in enumerate(sq):
+            q = dp.Query("%s.%d" % (hid, j), ds, w, m, any_e, gb, 0)
+            lines.append("HQ %s hg %s %s %s GB %d%s" % (q.qid, w, m, dp.enc_expr(any_e), len(gb), "".join(" " + core.enc_str(c) for c in gb)))
+            qs.append(q)
+        lines.append("ENDHIST")
+        hists.append((hid, ds, w, m, cap, qs))
+    lines.append("DROP hg")
     # more operands than any one byte of an operand key can tell apart: 700 AND / OR nodes that
     # differ only in their first operand (pigeonhole against keys built from part of the
     # operand keys)
@@ -187,6 +209,7 @@ def gen(rng, tier):
     lines.append("ENDHIST")
     hists.append((hid, ds, "mem", "preload", 1 << 24, qs))
     lines.append("DROP hp")
+    lines.append("KEYFEED kf1")
     return lines, hists
 
 
@@ -251,6 +274,11 @@ def run(rep, scratch, tier, seed, replay=None):
     impl, model, rc, err = run_lines(scratch, lines, "c03")
     if rc != 0:
         raise core.FrameworkError("harness exited with %d: %s" % (rc, err[-2000:]))
+    kf = impl.get(("KEYFEED", "kf1"))
+    if kf is not None and not kf.startswith("OK"):
+        rep.violation("monitor:cache-transparency", "the cache keys the library produced, fed back to it as column names and values (every key, with and without each node tag, big- and little-endian, split at the first NUL): on that index a cached handle answers differently from an uncached one: %s" % kf[:300],
+                      {"how": "harness/keyfeed.go (deterministic): ./check C03", "harness_line": kf})
+    rep.coverage["key_feedback"] = kf
     nq = hits = 0
     caps = {}
     failing = []
